@@ -14,7 +14,7 @@ Completed(s) == s.exc = "ok" /\ s.abort = 0
 JudgeSession(s) ==
   LET names == {s.expr1.facs[k].t : k \in 1..Len(s.expr1.facs)}
       cfg   == [ufmt |-> {<<s.ufmt[k][1], s.ufmt[k][2]>> : k \in 1..Len(s.ufmt)}, ext |-> s.extents, nofilter |-> (s.nofilter = 1)]
-      mach  == IF s.plus = 1 THEN RunAdd(OpsFrom(s.ops1, names)) ELSE RunX(s.expr1, OpsFrom(s.ops1, names), s.order, cfg)
+      mach  == IF s.plus = 1 THEN RunAdd(OpsFrom(s.ops1, names)) ELSE IF s.plus = 2 THEN RunProd(OpsFrom(s.ops1, names), s.extents.k) ELSE RunX(s.expr1, OpsFrom(s.ops1, names), s.order, cfg)
       exact == s.style = "tf"
   IN IF s.abort # 0 THEN <<>>
      ELSE IF s.exc # "ok" THEN <<IF s.collect = 1 THEN "P:C15:transparent" ELSE "S:kernel-exception">>      \* a kernel that runs with collection off must run with it on
@@ -25,7 +25,7 @@ JudgeSession(s) ==
         <<"P:C15:add-count", exact => s.add = mach.add>>,
         <<"P:C15:update-count", exact => s.upd = mach.upd>>,
         <<"P:C15:numops-agrees", s.numops = <<s.mul, s.add>> >>,
-        <<"P:C15:iter-count", exact => \A k \in 1..Len(s.files) : (s.files[k].type = "iter" /\ s.files[k].level > 0) =>
+        <<"P:C15:iter-count", exact => \A k \in 1..Len(s.files) : (s.files[k].type = "iter" /\ s.files[k].level > 0 /\ s.files[k].level <= Len(mach.it)) =>
                                            (IF mach.it[s.files[k].level] = 0 /\ s.files[k].exists = 0 THEN TRUE ELSE s.files[k].numiters = mach.it[s.files[k].level])>>,
         <<"P:C15:collect-ended", s.state_end.collecting = "false">> >>)
 Judge(B) ==
